@@ -17,11 +17,15 @@ class ListSource:
         self.values_list = [np.array(v, dtype=np.float64) for v in values_list]
         self.n = n
         self.drawn = 0
+        self.fail_next: type | None = None  # injected fault: the next draw raises this (once), drawing nothing
 
     def current(self) -> np.ndarray:
         return self.values_list[(self.drawn - 1) % len(self.values_list)]
 
     def __call__(self, *_: Any):
+        if self.fail_next is not None:
+            exc, self.fail_next = self.fail_next, None
+            raise exc("injected: the hidden-game source failed")
         v = self.values_list[self.drawn % len(self.values_list)]
         self.drawn += 1
         return games.full_game(v, self.n)
@@ -35,12 +39,16 @@ class RegistrySource:
         self.rng = np.random.Generator(np.random.PCG64(seed))
         self.drawn = 0
         self.last: np.ndarray | None = None
+        self.fail_next: type | None = None
 
     def current(self) -> np.ndarray:
         assert self.last is not None
         return self.last
 
     def __call__(self, *_: Any):
+        if self.fail_next is not None:
+            exc, self.fail_next = self.fail_next, None
+            raise exc("injected: the hidden-game source failed")
         from incomplete_cooperative.generators import GENERATORS
         g = GENERATORS[self.key](self.n, self.rng)
         self.drawn += 1
@@ -209,3 +217,25 @@ class OtherClientEnv:
             sim.event("other-env")
         except Exception as e:  # not judged
             sim.event("other-env-raised", type(e).__name__)
+
+    def thunk(self, upcoming: int | None = None) -> Callable[[], None] | None:
+        """One pre-decided call of the second client as a thunk for a caller thread (None: nothing to do yet)."""
+        sim = self.sim
+        if self.env is None:
+            return None
+        env2 = self.env
+        valid = [int(a) for a in np.nonzero(env2.action_masks())[0]]
+        if not valid:
+            call = env2.reset
+        elif upcoming is not None and upcoming in valid and sim.flip(1, 2, "other-env-lockstep"):
+            call = lambda: env2.step(upcoming)  # noqa: E731
+        else:
+            a = sim.pick(valid, "other-env-action")
+            call = lambda: env2.step(a)  # noqa: E731
+
+        def run() -> None:
+            try:
+                call()
+            except Exception:  # not judged
+                pass
+        return run
